@@ -2620,7 +2620,17 @@ func (p *printer) printExpr(expr js_ast.Expr, level js_ast.L, flags printExprFla
 			}
 			flags &= ^(isNewTarget | hasNonOptionalChainParent)
 		}
+		// An expression statement must not start with "let [" (it would be parsed as a declaration)
+		wrapLet := false
+		if id, ok := e.Target.Data.(*js_ast.EIdentifier); ok && e.OptionalChain == js_ast.OptionalChainNone &&
+			p.stmtStart == len(p.js) && p.renamer.NameForSymbol(id.Ref) == "let" {
+			wrapLet = true
+			p.print("(")
+		}
 		p.printExpr(e.Target, js_ast.LPostfix, (flags&(isNewTarget|hasNonOptionalChainParent))|isPropertyAccessTarget)
+		if wrapLet {
+			p.print(")")
+		}
 		if e.OptionalChain == js_ast.OptionalChainStart {
 			p.print("?.")
 		}
